@@ -20,25 +20,28 @@ VARIABLES status,     \* actor status (only grows)
           q,          \* channel contents: sequence of <<sender, k>> or DrainItem
           rxClosed,   \* receiver half closed (ports dropped)
           spc, sk, sprev,   \* sender pc, current message index, pending result
+          seen,       \* per process: the admission word last loaded / observed by its CAS loop
           sres,       \* result of each send: "none" | "ok" | "err"
           dpc,        \* drainer pc
           handled,    \* sequence of messages handled by the consumer
           cexit,      \* "none" | "drained" | "exited"
           clock, beginT, endT, drainRet    \* history: logical real-time stamps
 
-vars == <<status, adm, q, rxClosed, spc, sk, sprev, sres, dpc, handled, cexit, clock, beginT, endT, drainRet>>
+vars == <<status, adm, q, rxClosed, spc, sk, sprev, seen, sres, dpc, handled, cexit, clock, beginT, endT, drainRet>>
 hvars == <<clock, beginT, endT, drainRet>>
 
 Msg == Senders \X (1..MsgsPer)
 DrainItem == <<"drain", 0>>
 Cur(s) == <<s, sk[s]>>
+Adm0 == [cnt |-> 0, closed |-> FALSE, marker |-> FALSE]
 
 Init ==
   /\ status = Running
-  /\ adm = [cnt |-> 0, closed |-> FALSE, marker |-> FALSE]
+  /\ adm = Adm0
   /\ q = <<>> /\ rxClosed = FALSE
   /\ spc = [s \in Senders |-> "idle"] /\ sk = [s \in Senders |-> 0]
   /\ sprev = [s \in Senders |-> "none"]
+  /\ seen = [p \in Senders \cup Drainers |-> Adm0]
   /\ sres = [m \in Msg |-> "none"]
   /\ dpc = [d \in Drainers |-> "idle"]
   /\ handled = <<>> /\ cexit = "none"
@@ -51,7 +54,7 @@ SBegin(s) ==
   /\ sk' = [sk EXCEPT ![s] = @ + 1]
   /\ beginT' = [beginT EXCEPT ![<<s, sk[s] + 1>>] = clock + 1] /\ clock' = clock + 1
   /\ spc' = [spc EXCEPT ![s] = "begun"]
-  /\ UNCHANGED <<status, adm, q, rxClosed, sprev, sres, dpc, handled, cexit, endT, drainRet>>
+  /\ UNCHANGED <<status, adm, q, rxClosed, sprev, seen, sres, dpc, handled, cexit, endT, drainRet>>
 
 \* status load; >= Draining rejects without touching shared state
 SStatus(s) ==
@@ -59,16 +62,25 @@ SStatus(s) ==
   /\ IF status >= Draining
        THEN spc' = [spc EXCEPT ![s] = "ret"] /\ sprev' = [sprev EXCEPT ![s] = "err"]
        ELSE spc' = [spc EXCEPT ![s] = "statusOk"] /\ UNCHANGED sprev
-  /\ UNCHANGED <<status, adm, q, rxClosed, sk, sres, dpc, handled, cexit, hvars>>
+  /\ UNCHANGED <<status, adm, q, rxClosed, sk, seen, sres, dpc, handled, cexit, hvars>>
 
-\* try_admit_message: CAS loop linearised at its successful CAS / at the load that saw "closed"
+\* try_admit_message: load, then a CAS loop. Every iteration starts (point adm.iter) with the word
+\* it last saw in `seen`; a failed CAS stores the observed word and iterates again.
+SAdmLoad(s) ==
+  /\ spc[s] = "statusOk" /\ spc' = [spc EXCEPT ![s] = "admIter"] /\ seen' = [seen EXCEPT ![s] = adm]
+  /\ UNCHANGED <<status, adm, q, rxClosed, sk, sprev, sres, dpc, handled, cexit, hvars>>
+SAdmRetry(s) ==
+  /\ spc[s] = "admIter" /\ ~seen[s].closed /\ adm # seen[s]
+  /\ seen' = [seen EXCEPT ![s] = adm]
+  /\ UNCHANGED <<status, adm, q, rxClosed, spc, sk, sprev, sres, dpc, handled, cexit, hvars>>
 SAdmit(s) ==
-  /\ spc[s] = "statusOk"
-  /\ IF adm.closed
+  /\ spc[s] = "admIter"
+  /\ IF seen[s].closed
        THEN /\ spc' = [spc EXCEPT ![s] = "ret"] /\ sprev' = [sprev EXCEPT ![s] = "err"] /\ UNCHANGED adm
-       ELSE /\ adm' = [adm EXCEPT !.cnt = @ + 1]
+       ELSE /\ adm = seen[s]
+            /\ adm' = [adm EXCEPT !.cnt = @ + 1]
             /\ spc' = [spc EXCEPT ![s] = "admitted"] /\ UNCHANGED sprev
-  /\ UNCHANGED <<status, q, rxClosed, sk, sres, dpc, handled, cexit, hvars>>
+  /\ UNCHANGED <<status, q, rxClosed, sk, seen, sres, dpc, handled, cexit, hvars>>
 
 \* channel send; fails (message handed back) iff the receiver is closed
 SEnqueue(s) ==
@@ -77,23 +89,31 @@ SEnqueue(s) ==
        THEN sprev' = [sprev EXCEPT ![s] = "err"] /\ UNCHANGED q
        ELSE q' = Append(q, Cur(s)) /\ sprev' = [sprev EXCEPT ![s] = "ok"]
   /\ spc' = [spc EXCEPT ![s] = "enqueued"]
-  /\ UNCHANGED <<status, adm, rxClosed, sk, sres, dpc, handled, cexit, hvars>>
+  /\ UNCHANGED <<status, adm, rxClosed, sk, seen, sres, dpc, handled, cexit, hvars>>
 
 \* ticket drop = fetch_sub; the last ticket after a close goes on to emit the marker
 SRelease(s) ==
   /\ spc[s] = "enqueued"
   /\ adm' = [adm EXCEPT !.cnt = @ - 1]
   /\ spc' = [spc EXCEPT ![s] = IF adm.closed /\ adm.cnt = 1 THEN "marker" ELSE "ret"]
-  /\ UNCHANGED <<status, q, rxClosed, sk, sprev, sres, dpc, handled, cexit, hvars>>
+  /\ UNCHANGED <<status, q, rxClosed, sk, sprev, seen, sres, dpc, handled, cexit, hvars>>
 
-MarkerOk == adm.closed /\ adm.cnt = 0 /\ ~adm.marker
-
+\* send_drain_marker: load, then a CAS loop that sets the marker bit only on a word that is closed,
+\* has no tickets out and no marker yet
+MarkerOkOn(w) == w.closed /\ w.cnt = 0 /\ ~w.marker
+SMarkerLoad(s) ==
+  /\ spc[s] = "marker" /\ spc' = [spc EXCEPT ![s] = "mIter"] /\ seen' = [seen EXCEPT ![s] = adm]
+  /\ UNCHANGED <<status, adm, q, rxClosed, sk, sprev, sres, dpc, handled, cexit, hvars>>
+SMarkerRetry(s) ==
+  /\ spc[s] = "mIter" /\ MarkerOkOn(seen[s]) /\ adm # seen[s]
+  /\ seen' = [seen EXCEPT ![s] = adm]
+  /\ UNCHANGED <<status, adm, q, rxClosed, spc, sk, sprev, sres, dpc, handled, cexit, hvars>>
 SMarkerCas(s) ==
-  /\ spc[s] = "marker"
-  /\ IF MarkerOk
-       THEN adm' = [adm EXCEPT !.marker = TRUE] /\ spc' = [spc EXCEPT ![s] = "markerEnq"]
+  /\ spc[s] = "mIter"
+  /\ IF MarkerOkOn(seen[s])
+       THEN /\ adm = seen[s] /\ adm' = [adm EXCEPT !.marker = TRUE] /\ spc' = [spc EXCEPT ![s] = "markerEnq"]
        ELSE UNCHANGED adm /\ spc' = [spc EXCEPT ![s] = "ret"]
-  /\ UNCHANGED <<status, q, rxClosed, sk, sprev, sres, dpc, handled, cexit, hvars>>
+  /\ UNCHANGED <<status, q, rxClosed, sk, sprev, seen, sres, dpc, handled, cexit, hvars>>
 
 \* return to the caller (after enqueuing the marker when this sender won the marker CAS)
 SReturn(s) ==
@@ -102,62 +122,70 @@ SReturn(s) ==
   /\ spc' = [spc EXCEPT ![s] = "idle"]
   /\ sres' = [sres EXCEPT ![Cur(s)] = sprev[s]]
   /\ endT' = [endT EXCEPT ![Cur(s)] = clock + 1] /\ clock' = clock + 1
-  /\ UNCHANGED <<status, adm, rxClosed, sk, sprev, dpc, handled, cexit, beginT, drainRet>>
+  /\ UNCHANGED <<status, adm, rxClosed, sk, sprev, seen, dpc, handled, cexit, beginT, drainRet>>
 
 -----------------------------------------------------------------------------
 (* Drainer: drain() *)
 DBegin(d) ==
   /\ dpc[d] = "idle" /\ dpc' = [dpc EXCEPT ![d] = "begun"]
-  /\ UNCHANGED <<status, adm, q, rxClosed, spc, sk, sprev, sres, handled, cexit, hvars>>
+  /\ UNCHANGED <<status, adm, q, rxClosed, spc, sk, sprev, seen, sres, handled, cexit, hvars>>
 DClose(d) ==
   /\ dpc[d] = "begun" /\ adm' = [adm EXCEPT !.closed = TRUE] /\ dpc' = [dpc EXCEPT ![d] = "closed"]
-  /\ UNCHANGED <<status, q, rxClosed, spc, sk, sprev, sres, handled, cexit, hvars>>
+  /\ UNCHANGED <<status, q, rxClosed, spc, sk, sprev, seen, sres, handled, cexit, hvars>>
 DStatus(d) ==
   /\ dpc[d] = "closed"
   /\ status' = (IF status < Stopping THEN Draining ELSE status)
   /\ dpc' = [dpc EXCEPT ![d] = "marker"]
-  /\ UNCHANGED <<adm, q, rxClosed, spc, sk, sprev, sres, handled, cexit, hvars>>
+  /\ UNCHANGED <<adm, q, rxClosed, spc, sk, sprev, seen, sres, handled, cexit, hvars>>
+DMarkerLoad(d) ==
+  /\ dpc[d] = "marker" /\ dpc' = [dpc EXCEPT ![d] = "mIter"] /\ seen' = [seen EXCEPT ![d] = adm]
+  /\ UNCHANGED <<status, adm, q, rxClosed, spc, sk, sprev, sres, handled, cexit, hvars>>
+DMarkerRetry(d) ==
+  /\ dpc[d] = "mIter" /\ MarkerOkOn(seen[d]) /\ adm # seen[d]
+  /\ seen' = [seen EXCEPT ![d] = adm]
+  /\ UNCHANGED <<status, adm, q, rxClosed, spc, sk, sprev, sres, dpc, handled, cexit, hvars>>
 DMarkerCas(d) ==
-  /\ dpc[d] = "marker"
-  /\ IF MarkerOk
-       THEN adm' = [adm EXCEPT !.marker = TRUE] /\ dpc' = [dpc EXCEPT ![d] = "markerEnq"]
+  /\ dpc[d] = "mIter"
+  /\ IF MarkerOkOn(seen[d])
+       THEN /\ adm = seen[d] /\ adm' = [adm EXCEPT !.marker = TRUE] /\ dpc' = [dpc EXCEPT ![d] = "markerEnq"]
        ELSE UNCHANGED adm /\ dpc' = [dpc EXCEPT ![d] = "ret"]
-  /\ UNCHANGED <<status, q, rxClosed, spc, sk, sprev, sres, handled, cexit, hvars>>
+  /\ UNCHANGED <<status, q, rxClosed, spc, sk, sprev, seen, sres, handled, cexit, hvars>>
 DReturn(d) ==
   /\ dpc[d] \in {"ret", "markerEnq"}
   /\ q' = IF dpc[d] = "markerEnq" /\ ~rxClosed THEN Append(q, DrainItem) ELSE q
   /\ dpc' = [dpc EXCEPT ![d] = "done"]
   /\ drainRet' = (IF drainRet = 0 THEN clock + 1 ELSE drainRet) /\ clock' = clock + 1
-  /\ UNCHANGED <<status, adm, rxClosed, spc, sk, sprev, sres, handled, cexit, beginT, endT>>
+  /\ UNCHANGED <<status, adm, rxClosed, spc, sk, sprev, seen, sres, handled, cexit, beginT, endT>>
 
 -----------------------------------------------------------------------------
 (* Consumer = the actor task seen from the mailbox *)
 Consume ==
   /\ ~rxClosed /\ cexit = "none" /\ q # <<>> /\ Head(q) # DrainItem
   /\ handled' = Append(handled, Head(q)) /\ q' = Tail(q)
-  /\ UNCHANGED <<status, adm, rxClosed, spc, sk, sprev, sres, dpc, cexit, hvars>>
+  /\ UNCHANGED <<status, adm, rxClosed, spc, sk, sprev, seen, sres, dpc, cexit, hvars>>
 ConsumeDrain ==
   /\ ~rxClosed /\ cexit = "none" /\ q # <<>> /\ Head(q) = DrainItem
   /\ cexit' = "drained" /\ q' = Tail(q)
-  /\ UNCHANGED <<status, adm, rxClosed, spc, sk, sprev, sres, dpc, handled, hvars>>
+  /\ UNCHANGED <<status, adm, rxClosed, spc, sk, sprev, seen, sres, dpc, handled, hvars>>
 \* the consumer leaves without having seen the marker (stop, kill, failure)
 ConsumerQuit ==
   /\ ConsumerMayExit /\ ~rxClosed /\ cexit = "none" /\ cexit' = "exited"
-  /\ UNCHANGED <<status, adm, q, rxClosed, spc, sk, sprev, sres, dpc, handled, hvars>>
+  /\ UNCHANGED <<status, adm, q, rxClosed, spc, sk, sprev, seen, sres, dpc, handled, hvars>>
 \* exit sequence: publish Stopping, drop the ports (close + flush), publish Stopped. The order of
 \* the port drop relative to the status stores differs between exit causes (graceful: after
 \* Stopping; handler failure: before; task abort: unspecified), so it is left open here.
 CStatus(v) ==
   /\ cexit # "none" /\ v \in {Stopping, Stopped} /\ v > status
   /\ status' = v
-  /\ UNCHANGED <<adm, q, rxClosed, spc, sk, sprev, sres, dpc, handled, cexit, hvars>>
+  /\ UNCHANGED <<adm, q, rxClosed, spc, sk, sprev, seen, sres, dpc, handled, cexit, hvars>>
 CDropPorts ==
   /\ cexit # "none" /\ ~rxClosed
   /\ rxClosed' = TRUE /\ q' = <<>>
-  /\ UNCHANGED <<status, adm, spc, sk, sprev, sres, dpc, handled, cexit, hvars>>
+  /\ UNCHANGED <<status, adm, spc, sk, sprev, seen, sres, dpc, handled, cexit, hvars>>
 
-SenderStep(s) == SBegin(s) \/ SStatus(s) \/ SAdmit(s) \/ SEnqueue(s) \/ SRelease(s) \/ SMarkerCas(s) \/ SReturn(s)
-DrainerStep(d) == DBegin(d) \/ DClose(d) \/ DStatus(d) \/ DMarkerCas(d) \/ DReturn(d)
+SenderStep(s) == \/ SBegin(s) \/ SStatus(s) \/ SAdmLoad(s) \/ SAdmRetry(s) \/ SAdmit(s) \/ SEnqueue(s) \/ SRelease(s)
+                 \/ SMarkerLoad(s) \/ SMarkerRetry(s) \/ SMarkerCas(s) \/ SReturn(s)
+DrainerStep(d) == DBegin(d) \/ DClose(d) \/ DStatus(d) \/ DMarkerLoad(d) \/ DMarkerRetry(d) \/ DMarkerCas(d) \/ DReturn(d)
 ConsumerStep == Consume \/ ConsumeDrain \/ ConsumerQuit \/ CDropPorts \/ (\E v \in {Stopping, Stopped} : CStatus(v))
 
 Next == (\E s \in Senders : SenderStep(s)) \/ (\E d \in Drainers : DrainerStep(d)) \/ ConsumerStep
@@ -172,7 +200,7 @@ Pos(m) == CHOOSE i \in 1..Len(handled) : handled[i] = m
 TypeOK ==
   /\ status \in {Running, Draining, Stopping, Stopped}
   /\ adm.cnt \in 0..Cardinality(Senders)
-  /\ \A s \in Senders : spc[s] \in {"idle", "begun", "statusOk", "admitted", "enqueued", "marker", "markerEnq", "ret"}
+  /\ \A s \in Senders : spc[s] \in {"idle", "begun", "statusOk", "admIter", "admitted", "enqueued", "marker", "mIter", "markerEnq", "ret"}
 
 \* C07
 NothingAfterMarker == \A i \in 1..Len(q) : q[i] = DrainItem => i = Len(q)
